@@ -40,6 +40,14 @@ Theorem C07_returns_partial : forall {K} (N : Num K) (len : K -> K) (s s_tol : K
   forall fuel lo hi, (mu lo hi < fuel)%nat -> bisect N true s s_tol len fuel lo hi <> EMaxIts.
 Proof. intros K N len s s_tol mu. exact (repaired_returns N len s s_tol mu). Qed.
 
+(* Path branch, binary64: for s on a segment boundary the segment search hands
+   the segment an s - lsum that exceeds the segment's length by one ulp:
+   ValueError although 0 <= s <= L (with or without the repaired exit test) *)
+Example C07_path_boundary_refuted : forall rep t2T,
+  PrimFloat.leb 0 P_s && PrimFloat.leb P_s P_L = true
+  /\ inv_arclength_path NumF rep t2T P_segs P_L P_s F_tol 10000 = EValueError.
+Proof. intros. exact (conj P_s_inside (P_path_valueerror rep t2T)). Qed.
+
 (* ---------------- over R (both variants: rep arbitrary) ---------------- *)
 Local Open Scope R_scope.
 
@@ -122,6 +130,7 @@ Print Assumptions C07_adjacent_midpoint.
 Print Assumptions C07_stall_refuted_witness.
 Print Assumptions C07_repaired_witness.
 Print Assumptions C07_returns_partial.
+Print Assumptions C07_path_boundary_refuted.
 Print Assumptions C07_bisect_invariant.
 Print Assumptions C07_result.
 Print Assumptions C07_no_stall_over_R.
